@@ -1,7 +1,7 @@
 ------------------------------ MODULE Gen_Net ------------------------------
 (* Behaviour generation for the network of engines: simulate Net and dump each behaviour's history. *)
 EXTENDS Net, Json, Randomization
-ASSUME JsonSerialize("catalog.json", <<[tx |-> TX, genesis |-> GenesisOuts, award |-> Award,
+ASSUME JsonSerialize("catalog.json", <<[tx |-> TX, genesis |-> GenesisOuts, award |-> AwardSched, awards |-> [h \in 1..16 |-> AwardAt(h)],
                                         keys |-> SetToSeq(Keys), addrs |-> Addrs]>>)
 Dump == Len(hist) < MaxOps \/ (JsonSerialize("out/b_" \o ToString(TLCGet("stats").traces) \o ".json", hist) /\ FALSE)
 Pick(k, S) == RandomSubset(IF Cardinality(S) < k THEN Cardinality(S) ELSE k, S)
